@@ -70,7 +70,7 @@ func RunReplay(pkg string, harnesses map[string]func()) error {
 		}
 		res.Ran = true
 		Reset(c.Vals, c.Choices)
-		FSRoot = filepath.Join(root, fmt.Sprint(c.ID))
+		FSRoot = filepath.Join(root, fmt.Sprint(c.ID), "r1", "r2")
 		os.MkdirAll(FSRoot, 0o755)
 		NativeFS = func(name, content string, mode int) {
 			p := name
@@ -126,5 +126,5 @@ func TempRoot() string {
 	if FSRoot != "" {
 		return FSRoot
 	}
-	return "/vfs"
+	return "/vfs/r1/r2"
 }
